@@ -9,4 +9,11 @@ require (
 	pgregory.net/rapid v1.3.0
 )
 
+require (
+	github.com/mattn/go-isatty v0.0.20 // indirect
+	golang.org/x/sys v0.22.0 // indirect
+	gopkg.in/natefinch/lumberjack.v2 v2.2.1 // indirect
+	gopkg.in/yaml.v3 v3.0.1 // indirect
+)
+
 replace github.com/basecomplextech/spec => /repo
